@@ -11,17 +11,25 @@ Require Import Blots.Num Blots.UnitsBase Blots.gen.UnitsTable Blots.Units Blots.
 Import ListNotations.
 Open Scope Z_scope.
 
-(* ---- every identifier listed for a unit resolves to that unit ------------------------------
-   Exclusion [dup_listed i = false] = known-finding class C17-dup-ident (an identifier listed for
-   two units: today "c" for celsius and coulombs).  Finite: all identifiers of the table. *)
+(* ---- every identifier listed for a unit resolves to that unit --------------------------------
+   Finite: all identifiers of the table.  (Until fix 478f22e "the coulomb symbol is C" this needed the
+   exclusion of the identifier "c", listed for celsius and coulombs: finding F27, now fixed.) *)
 Theorem C17_every_identifier_resolves : forall u i,
-  In u all_units -> In i (u_ids u) -> dup_listed i = false -> resolve_unit i = UOk u.
+  In u all_units -> In i (u_ids u) -> resolve_unit i = UOk u.
 Proof. exact every_identifier_resolves. Qed.
 Check C17_every_identifier_resolves : forall u i,
-  In u all_units -> In i (u_ids u) -> dup_listed i = false -> resolve_unit i = UOk u.
+  In u all_units -> In i (u_ids u) -> resolve_unit i = UOk u.
 Print Assumptions C17_every_identifier_resolves.
 
-(* ... and the excluded class is exactly an ambiguity error, never a guess (any table) *)
+(* no identifier is listed for two units *)
+Theorem C17_no_duplicate_identifiers : forall u i,
+  In u all_units -> In i (u_ids u) -> dup_listed i = false.
+Proof. exact no_duplicate_identifiers. Qed.
+Check C17_no_duplicate_identifiers : forall u i,
+  In u all_units -> In i (u_ids u) -> dup_listed i = false.
+Print Assumptions C17_no_duplicate_identifiers.
+
+(* ... and if one ever is, it is an ambiguity error, never a guess (holds for any table) *)
 Theorem C17_dup_ident_is_error : forall u i,
   In u all_units -> In i (u_ids u) -> dup_listed i = true -> resolve_unit i = UErr EAmbigExact.
 Proof. exact dup_ident_is_error. Qed.
@@ -29,12 +37,14 @@ Check C17_dup_ident_is_error : forall u i,
   In u all_units -> In i (u_ids u) -> dup_listed i = true -> resolve_unit i = UErr EAmbigExact.
 Print Assumptions C17_dup_ident_is_error.
 
-(* the excluded class contains only the identifiers recorded in the known finding: a NEW identifier
-   listed for two units makes this theorem (and the implementation-level search) fail *)
-Theorem C17_dup_idents_are_known : forall i, In i dup_idents -> In i known_dup_idents.
-Proof. exact dup_idents_are_known. Qed.
-Check C17_dup_idents_are_known : forall i, In i dup_idents -> In i known_dup_idents.
-Print Assumptions C17_dup_idents_are_known.
+(* two units of the table with the same identifier list are the same unit: the self-conversion
+   short-circuit (from.identifiers == to.identifiers) fires exactly for a unit and itself *)
+Theorem C17_same_ids_same_unit : forall u x,
+  In u all_units -> In x all_units -> u_ids u = u_ids x -> u = x.
+Proof. exact same_ids_same_unit. Qed.
+Check C17_same_ids_same_unit : forall u x,
+  In u all_units -> In x all_units -> u_ids u = u_ids x -> u = x.
+Print Assumptions C17_same_ids_same_unit.
 
 (* ---- case-insensitively when unambiguous: any spelling s (unbounded) of a listed identifier i
    whose lower-casing is listed for one unit only resolves to that unit *)
@@ -82,12 +92,12 @@ Print Assumptions C17_unknown_is_error.
 
 (* ---- all identifiers of a unit behave identically (any arithmetic instance A: binary64 or Q) *)
 Theorem C17_aliases_same_unit : forall A u i j (v : T A) x,
-  In u all_units -> In i (u_ids u) -> In j (u_ids u) -> dup_listed i = false -> dup_listed j = false ->
+  In u all_units -> In i (u_ids u) -> In j (u_ids u) ->
   resolve_unit i = resolve_unit j /\
   convert A v i x = convert A v j x /\ convert A v x i = convert A v x j.
 Proof. exact aliases_same_unit. Qed.
 Check C17_aliases_same_unit : forall A u i j (v : T A) x,
-  In u all_units -> In i (u_ids u) -> In j (u_ids u) -> dup_listed i = false -> dup_listed j = false ->
+  In u all_units -> In i (u_ids u) -> In j (u_ids u) ->
   resolve_unit i = resolve_unit j /\
   convert A v i x = convert A v j x /\ convert A v x i = convert A v x j.
 Print Assumptions C17_aliases_same_unit.
@@ -113,11 +123,11 @@ Print Assumptions C17_different_categories_never_convert.
 
 Theorem C17_same_category_converts : forall A v a b ua ub,
   resolve_unit a = UOk ua -> resolve_unit b = UOk ub -> u_cat ua = u_cat ub ->
-  convert A v a b = UOk (convert_from_base A ub (convert_to_base A ua v)).
+  convert A v a b = UOk (if same_ids ua ub then v else through_base A v ua ub).
 Proof. exact same_category_converts. Qed.
 Check C17_same_category_converts : forall A v a b ua ub,
   resolve_unit a = UOk ua -> resolve_unit b = UOk ub -> u_cat ua = u_cat ub ->
-  convert A v a b = UOk (convert_from_base A ub (convert_to_base A ua v)).
+  convert A v a b = UOk (if same_ids ua ub then v else through_base A v ua ub).
 Print Assumptions C17_same_category_converts.
 
 Theorem C17_unresolved_is_error : forall A v a b e,
@@ -136,32 +146,21 @@ Check C17_builtin_is_convert : forall v a b,
   builtin_convert (ANum v) (AStr a) (AStr b) = convert fl v a b.
 Print Assumptions C17_builtin_is_convert.
 
-(* ---- binary64: converting a unit to itself.  The statement of the property,
-        forall v a u, resolve_unit a = UOk u -> convert fl v a a = UOk v,
-   is REFUTED by the code as it is (v * c / c, no short-circuit; known-finding class
-   C17-self-float); it holds for the repaired convert of fixes/C17-self-conversion-identity.diff *)
-Definition C17_self_identity_float_full : Prop :=
-  forall v a b u, resolve_unit a = UOk u -> resolve_unit b = UOk u -> convert fl v a b = UOk v.
-Lemma C17_self_identity_float_refuted :
+(* ---- converting a unit to itself is the identity: in every arithmetic instance, in particular in
+   binary64 bit for bit ([A := fl]) and exactly over Q ([A := qa]); a and b are any two identifiers
+   of the unit.  (Refuted before fix e6d26e9: the code computed v * c / c; finding F28.) *)
+Theorem C17_self_identity : forall A v a b u,
+  resolve_unit a = UOk u -> resolve_unit b = UOk u -> convert A v a b = UOk v.
+Proof. exact self_identity. Qed.
+Check C17_self_identity : forall A v a b u,
+  resolve_unit a = UOk u -> resolve_unit b = UOk u -> convert A v a b = UOk v.
+Print Assumptions C17_self_identity.
+
+(* why the short-circuit is needed: through the base unit, binary64 does not give the identity *)
+Lemma C17_through_base_not_identity :
   exists u v, literal_ok (match u_conv u with Linear c => c | _ => lit_5 end) = true /\
-              convert_units fl v u u <> UOk v.
-Proof. exact self_identity_float_refuted. Qed.
-
-Theorem C17_self_identity_fixed : forall A v a b u,
-  resolve_unit a = UOk u -> resolve_unit b = UOk u -> convert_fixed A v a b = UOk v.
-Proof. exact self_identity_fixed. Qed.
-Check C17_self_identity_fixed : forall A v a b u,
-  resolve_unit a = UOk u -> resolve_unit b = UOk u -> convert_fixed A v a b = UOk v.
-Print Assumptions C17_self_identity_fixed.
-
-Theorem C17_fixed_agrees_elsewhere : forall A v a b ua ub,
-  resolve_unit a = UOk ua -> resolve_unit b = UOk ub -> u_ids ua <> u_ids ub ->
-  convert_fixed A v a b = convert A v a b.
-Proof. exact fixed_agrees_elsewhere. Qed.
-Check C17_fixed_agrees_elsewhere : forall A v a b ua ub,
-  resolve_unit a = UOk ua -> resolve_unit b = UOk ub -> u_ids ua <> u_ids ub ->
-  convert_fixed A v a b = convert A v a b.
-Print Assumptions C17_fixed_agrees_elsewhere.
+              through_base fl v u u <> v.
+Proof. exact through_base_not_identity. Qed.
 
 (* ---- the regenerated table is well formed (finite: every unit of the table) ------------------
    every coefficient is positive, non-zero, and its dumped decimal rounds (rn_decimal) to its dumped
@@ -206,15 +205,6 @@ Proof. split; intros H; apply (f_equal (@List.length _)) in H; vm_compute in H; 
 (* ---- the algebraic laws, exact over Q (with a point at infinity for the reciprocal kind),
    unbounded over the value v, for every identifier pair / triple that resolves; [qa] is the exact
    instance of the very code ([convert]) that the UNITS stream runs in binary64 *)
-Theorem C17_self_identity_Q : forall a b u v,
-  resolve_unit a = UOk u -> resolve_unit b = UOk u ->
-  exists r, convert qa v a b = UOk r /\ qx_eq r v.
-Proof. exact self_identity_Q. Qed.
-Check C17_self_identity_Q : forall a b u v,
-  resolve_unit a = UOk u -> resolve_unit b = UOk u ->
-  exists r, convert qa v a b = UOk r /\ qx_eq r v.
-Print Assumptions C17_self_identity_Q.
-
 Theorem C17_there_and_back_Q : forall a b ua ub v,
   resolve_unit a = UOk ua -> resolve_unit b = UOk ub -> u_cat ua = u_cat ub ->
   exists r1 r2, convert qa v a b = UOk r1 /\ convert qa r1 b a = UOk r2 /\ qx_eq r2 v.
@@ -249,13 +239,11 @@ Example C17_law_hypotheses_satisfiable :
   end = true.
 Proof. vm_cast_no_check (eq_refl true). Qed.
 
-(* the batched evaluator printed by the UNITS correspondence stream is [convert] / [convert_fixed],
+(* the batched evaluator printed by the UNITS correspondence stream is [convert],
    magnitude by magnitude (so the stream validates exactly the functions the theorems are about) *)
-Theorem C17_convert_many_spec : forall A fixed vs a b,
-  convert_many A fixed vs a b =
-  map (fun v => if fixed then convert_fixed A v a b else convert A v a b) vs.
+Theorem C17_convert_many_spec : forall A vs a b,
+  convert_many A vs a b = map (fun v => convert A v a b) vs.
 Proof. exact convert_many_spec. Qed.
-Check C17_convert_many_spec : forall A fixed vs a b,
-  convert_many A fixed vs a b =
-  map (fun v => if fixed then convert_fixed A v a b else convert A v a b) vs.
+Check C17_convert_many_spec : forall A vs a b,
+  convert_many A vs a b = map (fun v => convert A v a b) vs.
 Print Assumptions C17_convert_many_spec.
